@@ -163,6 +163,32 @@ func sdString(r *rand.Rand) string {
 	return s
 }
 
+// guarded places a copy of b inside a larger record (canary octets on both sides, the capacity of the returned view
+// reaching to the end of the record - what a sub-slice of a caller's buffer looks like) and returns the view and a
+// function that tells whether the callee wrote outside the view (or, when mayWriteView is false, anywhere at all).
+func guarded(r *rand.Rand, b []byte) (view []byte, damaged func(mayWriteView bool) string) {
+	pre, post := 8+r.Intn(9), 24+r.Intn(9)
+	rec := bytes.Repeat([]byte{0xa5}, pre+len(b)+post)
+	copy(rec[pre:], b)
+	was := append([]byte(nil), rec...)
+	view = rec[pre : pre+len(b)]
+	return view, func(mayWriteView bool) string {
+		for i := range rec {
+			if rec[i] != was[i] && !(mayWriteView && i >= pre && i < pre+len(b)) {
+				where := "behind"
+				switch {
+				case i < pre:
+					where = "in front of"
+				case i < pre+len(b):
+					where = "inside"
+				}
+				return fmt.Sprintf("the callee changed the caller's memory %s the argument (octet %d of a record of %d, argument at %d..%d): %02x -> %02x", where, i, len(rec), pre, pre+len(b)-1, was[i], rec[i])
+			}
+		}
+		return ""
+	}
+}
+
 func pick[T any](r *rand.Rand, xs ...T) T { return xs[r.Intn(len(xs))] }
 
 func kv(pairs ...any) string {
